@@ -1,6 +1,6 @@
 (* C07 - a program that passes checking never fails or misbehaves at run time.
    Expression level: type soundness of the checker with respect to the evaluator. *)
-From HclV Require Import Base Expr ExprSpec ExprLemmas ExprProofs Machine MachineSpec SchedSpec SchedProofs.
+From HclV Require Import Base Expr ExprSpec ExprLemmas ExprProofs Machine MachineSpec SchedSpec SchedProofs Build BuildSpec Generated BuildProofs.
 Open Scope N_scope.
 
 (* an accepted expression never raises a width or undeclared-wire error: it yields a value of
@@ -67,3 +67,21 @@ Theorem C07_run_safe :
     end.
 Proof. exact run_safe_ok. Qed.
 Print Assumptions C07_run_safe.
+
+(* ---- end to end: accepted => never fails ------------------------------------------------------ *)
+(* every program Program::new accepts (model: Build.build_program with the built-in table of the
+   compiled implementation, any feature set, any hash order of the sorter) is well typed in the
+   sense above: some width environment G makes it program_ok.  Together with C07_initial_state and
+   C07_run_safe: an accepted program, run for any number of cycles on any image, never aborts with
+   a width or undeclared-wire error and never panics; every wire always fits its declared width.
+   (wf_stmt: what the grammar guarantees - literal widths, declared widths and slice bounds <= 128.) *)
+Theorem C07_accepted_programs_are_well_typed :
+  forall f is_lower is_upper stmts p,
+    Forall wf_stmt stmts ->
+    build_program f gen_fixed is_lower is_upper stmts = Ok p ->
+    exists G, program_ok f G p.
+Proof.
+  intros f il iu stmts p Hwf Hb.
+  exact (accept_program_ok_gen f il iu gen_fixed_ok gen_fixed_widths_ok stmts p Hwf Hb).
+Qed.
+Print Assumptions C07_accepted_programs_are_well_typed.
